@@ -198,6 +198,9 @@ func (np *NetworkPolicy) ruleConnsContain(rulePorts []netv1.NetworkPolicyPort, p
 		return false, err
 	}
 	for i := range rulePorts {
+		if rulePorts[i].Port == nil && !strings.EqualFold(getProtocolStr(rulePorts[i].Protocol), protocol) {
+			continue // all ports of another protocol
+		}
 		if rulePorts[i].Port == nil { // If this field is not provided, this matches all port names and numbers.
 			return true, nil
 		}
